@@ -1,5 +1,6 @@
 """Per-property configuration of the E1 checks: which contract / lemma modules make up the
 dependency closure of the property."""
+from checks import extras
 
 PROPS = {
     "C04": dict(
@@ -20,9 +21,14 @@ PROPS = {
         assumptions=["induction over the list of chunks: step lemmas (2)-(4) are proved; the induction itself is "
                      "the meta-step", "padded strings are excluded by the statement (padding is 0xFF)"],
     ),
+    "C17L": dict(
+        modules=["contracts.generator"],
+        title="generator leaf guards",
+    ),
     "C07": dict(
         modules=["contracts.number", "lemmas.c07"],
         title="EO number codec bijection",
+        extra=extras.c07,
     ),
     "C08": dict(
         modules=["contracts.strings", "lemmas.c08"],
@@ -31,16 +37,19 @@ PROPS = {
     "C11": dict(
         modules=["contracts.hash"],
         title="server verification hash",
+        extra=extras.c11,
         lift={"eolib.encrypt.server_verification_utils.server_verification_hash":
               ["eolib.encrypt.server_verification_utils._mod"]},
     ),
     "C12": dict(
         modules=["contracts.sequence", "lemmas.c12"],
         title="sequence starts",
+        extra=extras.c12,
     ),
     "C13": dict(
         modules=["contracts.sequence", "contracts.sequencer", "lemmas.c13"],
         title="packet sequencer",
+        extra=extras.c13,
         functions=["eolib.packet.packet_sequencer.PacketSequencer.__init__",
                    "eolib.packet.packet_sequencer.PacketSequencer.next_sequence",
                    "eolib.packet.packet_sequencer.PacketSequencer.set_sequence_start"],
